@@ -441,7 +441,7 @@ func TestCheck(t *testing.T) {
 			{Active: false}, {Active: true}, {Active: true, DuringSelect: true},
 			{Active: false, Validate: true, Equip: true},
 		}
-		depth := map[bool][]int{false: {4, 3, 3, 3}, true: {5, 4, 4, 4}}[c.Thorough()]
+		depth := map[bool][]int{false: {4, 3, 3, 3}, true: {4, 4, 4, 4}}[c.Thorough()]
 		if c.Thorough() {
 			cfgs = append(cfgs, config{Active: true, Validate: true, Equip: true}, config{Active: false, Equip: true}, config{Active: false, Validate: true})
 			depth = append(depth, 4, 4, 4)
@@ -468,42 +468,56 @@ func TestCheck(t *testing.T) {
 				}
 			}
 			// tree mode: all leaves of depth D (each execution checks every prefix step)
-			D := depth[ci]
-			idx := make([]int, D)
-			for {
-				if c.Next() {
-					if c.Expired() {
-						return
-					}
-					h := make([]event, D)
-					for i, k := range idx {
-						h[i] = alphabet[k]
-					}
-					check(c, t, cfg, h)
-				}
-				i := D - 1
-				for ; i >= 0; i-- {
-					idx[i]++
-					if idx[i] < len(alphabet) {
-						break
-					}
-					idx[i] = 0
-				}
-				if i < 0 {
-					break
-				}
+			if !tree(c, t, cfg, alphabet, depth[ci]) {
+				return
 			}
-			// number of tree nodes (= distinct histories = states) and edges for this config
-			nodes, pow := int64(0), int64(1)
-			for d := 0; d <= D; d++ {
-				nodes += pow
-				pow *= int64(len(alphabet))
-			}
-			if c.Shard == 0 {
-				c.Graph(nodes, nodes-1, 0)
+			if c.Thorough() && ci == 0 {
+				// one level deeper over the control-procedure symbols only (the first 11)
+				if !tree(c, t, cfg, alphabet[:11], depth[ci]+1) {
+					return
+				}
 			}
 		}
 	})
+}
+
+// tree enumerates every history of exactly depth D over alpha (each execution checks the
+// oracle after every prefix step); false = deadline hit.
+func tree(c *vfw.Ctx, t *testing.T, cfg config, alpha []event, D int) bool {
+	idx := make([]int, D)
+	for {
+		if c.Next() {
+			if c.Expired() {
+				return false
+			}
+			h := make([]event, D)
+			for i, k := range idx {
+				h[i] = alpha[k]
+			}
+			check(c, t, cfg, h)
+		}
+		i := D - 1
+		for ; i >= 0; i-- {
+			idx[i]++
+			if idx[i] < len(alpha) {
+				break
+			}
+			idx[i] = 0
+		}
+		if i < 0 {
+			break
+		}
+	}
+	// number of tree nodes (= distinct histories = states) and edges
+	nodes, pow := int64(0), int64(1)
+	for d := 0; d <= D; d++ {
+		nodes += pow
+		pow *= int64(len(alpha))
+	}
+	if c.Shard == 0 {
+		c.Graph(nodes, nodes-1, 0)
+	}
+	return true
 }
 
 // onLeak is installed on every World: leaked library goroutines keep the bubble from
